@@ -112,26 +112,39 @@ def isHalted (p : List Instr) (σ : SSt) : Bool :=
   match p[σ.pc]? with | none => true | some .ret => true | _ => false
 
 /-- the check of one enumerated path -/
-def checkPath (p : List Instr) (need : Nat → List Isa) (r : List Cond × SSt) : Bool :=
+def checkPath (p : List Instr) (need : Nat → List Isa) (minBits : List Bit) (r : List Cond × SSt) : Bool :=
   isHalted p r.2 &&
   match r.2.cell with
   | some (.sym s) =>
-      let known := closure allRules 8 (knownOnes r.1)
+      let known := closure allRules 8 (minBits ++ knownOnes r.1)
       (need s).all fun i => (reqBits i).all fun b => known.contains b
   | _ => false
 
-def checkResolver (p : List Instr) (need : Nat → List Isa) : Bool :=
+/-- `minBits`: the documented minimum requirement of the entry point (a hypothesis, not a test) -/
+def checkResolver (p : List Instr) (need : Nat → List Isa) (minBits : List Bit) : Bool :=
   match paths p (4 * p.length) s0 [] with
-  | some res => res.all (checkPath p need)
+  | some res => res.all (checkPath p need minBits)
   | none => false
+
+/-- documented minimum of the AES entry points: "@requires SSE4.1 and AESNI" (GCM also PCLMULQDQ) -/
+def aesMinBits : List Bit := [(.l1ecx, 19), (.l1ecx, 9), (.l1ecx, 25), (.l1ecx, 1)]
 
 /-! ### same family across the entry points of one object -/
 
 def renameVal (ρ : Nat → Nat) : Val → Val
-  | .sym s => .sym (ρ s) | v => v
+  | .bits w => .bits w | .sym s => .sym (ρ s) | .junk => .junk
 
-def renameInstr (ρ : Nat → Nat) : Instr → Instr
-  | .lea r s => .lea r (ρ s) | i => i
+@[simp] theorem renameVal_bits (ρ : Nat → Nat) (w : W) : renameVal ρ (.bits w) = .bits w := rfl
+@[simp] theorem renameVal_sym (ρ : Nat → Nat) (s : Nat) : renameVal ρ (.sym s) = .sym (ρ s) := rfl
+@[simp] theorem renameVal_junk (ρ : Nat → Nat) : renameVal ρ .junk = .junk := rfl
+
+def renameInstr (ρ : Nat → Nat) (i : Instr) : Instr :=
+  match i with
+  | .lea r s => .lea r (ρ s)
+  | .movImm r k => .movImm r k | .movRR d s => .movRR d s | .cpuid => .cpuid | .xgetbv => .xgetbv
+  | .xorSelf r => .xorSelf r | .andImm r k => .andImm r k | .testImm r k => .testImm r k
+  | .cmpImm r k => .cmpImm r k | .jz z t => .jz z t | .jmp t => .jmp t | .cmov z d s => .cmov z d s
+  | .push r => .push r | .pop r => .pop r | .store r => .store r | .ret => .ret | .unsupported => .unsupported
 
 /-- two resolvers are the same program up to the family tag of the symbols they load -/
 def sameSkeleton (fam1 fam2 : Nat → Nat) (p1 p2 : List Instr) : Bool :=
